@@ -52,7 +52,7 @@ func RunPlan(args []string, opts GlobalOptions) error {
 		}
 
 		workingIDs := make(map[string]*Task, len(graph.Tasks)+len(input.Tasks)+1)
-		for id, task := range graph.Tasks {
+		for id, task := range idsInUse(graph) {
 			workingIDs[id] = task
 		}
 
